@@ -54,6 +54,9 @@ F = {
     "a8": fmt(8, T_A, 8, 0, 0, 0), "a1": fmt(1, T_A, 1, 0, 0, 0),
     "a2r10g10b10": fmt(32, T_ARGB, 2, 10, 10, 10), "x2r10g10b10": fmt(32, T_ARGB, 0, 10, 10, 10),
     "r3g3b2": fmt(8, T_ARGB, 0, 3, 3, 2),
+    "a8r8g8b8_sRGB": fmt(32, 10, 8, 8, 8, 8),       # PIXMAN_TYPE_ARGB_SRGB: always the wide pipeline, table-driven store
+    "b8g8r8": fmt(24, T_ABGR, 0, 8, 8, 8), "r8g8b8a8": fmt(32, T_RGBA, 8, 8, 8, 8),
+    "a2b10g10r10": fmt(32, T_ABGR, 2, 10, 10, 10),
 }
 SOLID = 1
 OPS_PD = list(range(0x00, 0x0e))          # CLEAR .. SATURATE
@@ -85,9 +88,10 @@ def creq(op, sf, sw, sh, srep, sfilt, t, mf, mw, mh, mrep, mca, df, dw, dh, sx, 
 def gen_requests(rng, n, threads=False):
     reqs = []
     dst_fmts = ["a8r8g8b8", "x8r8g8b8", "r5g6b5", "a8", "a8b8g8r8", "x8b8g8r8", "b8g8r8a8", "a1r5g5b5", "x1r5g5b5",
-                "r8g8b8", "b5g6r5", "a4r4g4b4", "a2r10g10b10", "r3g3b2"]
+                "r8g8b8", "b5g6r5", "a4r4g4b4", "a2r10g10b10", "r3g3b2", "a8r8g8b8_sRGB", "b8g8r8", "r8g8b8a8",
+                "a2b10g10r10"]
     src_fmts = ["a8r8g8b8", "x8r8g8b8", "r5g6b5", "a8", "a8b8g8r8", "x8b8g8r8", "b8g8r8a8", "b5g6r5", "a1r5g5b5",
-                "x2r10g10b10", "a1"]
+                "x2r10g10b10", "a1", "a8r8g8b8_sRGB", "r8g8b8", "b8g8r8", "r8g8b8a8"]
     mask_fmts = [0, 0, 0, F["a8"], F["a8"], F["a8r8g8b8"], SOLID, F["a1"]]
     recent = []
     while len(reqs) < n:
